@@ -152,7 +152,27 @@ class Engine:
             if naming is not None and t.eq(naming):
                 continue
             self.pc.append(t != -self.alloc)
+        if naming is None and not self.spec:
+            self._fresh_not_stored(-self.alloc)
         return -self.alloc
+
+    def _fresh_not_stored(self, new):
+        """allocation freshness, independent of the numbering scheme: the new object is not stored anywhere in the
+        current heap (matters after a loop havoc, where objects of earlier iterations have unknown ids)"""
+        r = z3.Int("r!fr")
+        i = z3.Int("i!fr")
+        for key, arr in list(self.heap.items()):
+            if key[0] == "f":
+                cls, attr = key[1].split(".", 1)
+                _d, ty = self.reg.field_decl(cls, attr)
+                if ty is not None and ty.kind in ("ref", "list", "dict", "ext") and key[2] == 0:
+                    self.pc.append(z3.ForAll([r], z3.Select(arr, r) != new))
+            elif key[0] == "el" and key[1].startswith(("ref:", "list", "dict")) and key[2] == 0:
+                self.pc.append(z3.ForAll([r, i], z3.Select(z3.Select(arr, r), i) != new))
+            elif key[0] == "dv" and key[2].startswith(("ref:", "list", "dict")) and key[3] == 0:
+                ks = arr.sort().range().domain()
+                kk = z3.Const("k!fr", ks)
+                self.pc.append(z3.ForAll([r, kk], z3.Select(z3.Select(arr, r), kk) != new))
 
     def assume(self, b):
         if b is True or (z3.is_expr(b) and z3.is_true(b)):
@@ -397,7 +417,20 @@ class Engine:
 
     def dget(self, dv, k):
         kt = self.dkey(dv, k)
-        return unpack(dv.vt, [z3.Select(a, kt) for a in self.dvals(dv)], self.assume)
+        # well-typedness is a fact about the PRE-STATE map only (values written during the call may be fresh objects)
+        if dv.vt.kind in ("ref", "list", "dict", "ext", "tuple", "opt"):
+            ks = self.ksort(dv.kt)
+            base = []
+            for i, s in enumerate(sorts(dv.vt)):
+                key = ("dv", dv.kt.key(), dv.vt.key(), i)
+                cur = self.harr(key, [z3.IntSort(), ks], s)
+                base.append(z3.Select(z3.Select(self.base_arr(key, cur), dv.t), kt))
+            basedom = z3.Select(z3.Select(self.base_arr(("dom", dv.kt.key()),
+                                                        self.harr(("dom", dv.kt.key()), [z3.IntSort(), ks], z3.BoolSort())),
+                                          dv.t), kt)
+            if not (self.spec and "!b" in str(kt)):
+                unpack(dv.vt, base, lambda f: self.assume(z3.Implies(basedom, f)))
+        return unpack(dv.vt, [z3.simplify(z3.Select(a, kt)) for a in self.dvals(dv)], None)
 
     def dset(self, dv, k, v):
         kt = self.dkey(dv, k)
@@ -547,6 +580,10 @@ class Engine:
         if isinstance(a, (ClassV,)) or isinstance(b, ClassV):
             return a == b
         if isinstance(a, Sym) and isinstance(b, Sym) and a.k == b.k == "bool":
+            return a.t == b.t
+        if isinstance(a, Sym) and isinstance(b, Sym) and a.k == b.k and isinstance(a.k, tuple):
+            # identity of two opaque values is approximated by their equality (identical => equal; the engine
+            # cannot distinguish equal-but-distinct opaque objects)
             return a.t == b.t
         if isinstance(a, Sym) and a.k == "bool" and isinstance(b, bool):
             return a.t == b
